@@ -726,6 +726,31 @@ fn tokenise_entry<I: Iterator<Item = char>>(
                 token_octets.put_u8(octet);
                 State::UnquotedString
             }
+            // parentheses end a token, just like whitespace does
+            (State::UnquotedString, '(') => {
+                if line_continuation {
+                    return Err(Error::TokeniserUnexpected { unexpected: '(' });
+                }
+                if !token_string.is_empty() {
+                    tokens.push((token_string, token_octets.freeze()));
+                    token_string = String::new();
+                    token_octets = BytesMut::new();
+                }
+                line_continuation = true;
+                State::Initial
+            }
+            (State::UnquotedString, ')') => {
+                if !line_continuation {
+                    return Err(Error::TokeniserUnexpected { unexpected: ')' });
+                }
+                if !token_string.is_empty() {
+                    tokens.push((token_string, token_octets.freeze()));
+                    token_string = String::new();
+                    token_octets = BytesMut::new();
+                }
+                line_continuation = false;
+                State::Initial
+            }
             (State::UnquotedString, c) => {
                 if c.is_whitespace() {
                     if !token_string.is_empty() {
